@@ -33,7 +33,9 @@ class Boom(RuntimeError):
 
 
 def base_recipe(meta):
-    first = CW.WORKFLOWS[meta["wf"]]().names()[0]
+    wf0 = CW.WORKFLOWS[meta["wf"]]()
+    produced = {o for t in wf0.targets for o in t.flat("outputs")}
+    first = next(t.name for t in wf0.targets if not (set(t.flat("inputs")) & produced))  # a target without dependencies (not necessarily the first one defined)
     acts = []
     if meta["init"] == "inflight":
         acts.append(("gwf", ["run", first]))
